@@ -76,6 +76,36 @@ where
     }
 }
 
+/// Verification hooks (compiled only with `--cfg dsi_bitstream_verif`): build a
+/// writer from, and decompose it into, its private fields without flushing.
+#[cfg(dsi_bitstream_verif)]
+impl<E: Endianness, WW: WordWrite, WP: WriteParams> BufBitWriter<E, WW, WP> {
+    #[doc(hidden)]
+    pub fn verif_from_parts(backend: WW, buffer: WW::Word, space_left_in_buffer: usize) -> Self {
+        Self {
+            backend,
+            buffer,
+            space_left_in_buffer,
+            _marker_endianness: core::marker::PhantomData,
+        }
+    }
+
+    #[doc(hidden)]
+    pub fn verif_parts(&self) -> (&WW, WW::Word, usize) {
+        (&self.backend, self.buffer, self.space_left_in_buffer)
+    }
+
+    #[doc(hidden)]
+    pub fn verif_into_parts(self) -> (WW, WW::Word, usize) {
+        let buffer = self.buffer;
+        let space_left_in_buffer = self.space_left_in_buffer;
+        // SAFETY: forget(self) prevents double dropping backend (and the flushing Drop)
+        let backend = unsafe { ptr::read(&self.backend) };
+        mem::forget(self);
+        (backend, buffer, space_left_in_buffer)
+    }
+}
+
 impl<E: Endianness, WW: WordWrite, WP: WriteParams> core::ops::Drop for BufBitWriter<E, WW, WP> {
     fn drop(&mut self) {
         if TypeId::of::<E>() == TypeId::of::<LE>() {
